@@ -8,7 +8,7 @@ def tops(src):
     names = set(m.group(1) for m in re.finditer(r'^(?:func|type|var|const)\s+([A-Za-z_]\w*)', src, re.M))
     for blk in re.finditer(r'^(?:var|const)\s*\((.*?)^\)', src, re.M | re.S):
         names |= set(m.group(1) for m in re.finditer(r'^\s+([A-Za-z_]\w*)\b', blk.group(1), re.M))
-    names.discard("init")
+    names.discard("init"); names.discard("_")
     return names
 files = sorted(glob.glob("*.go"))
 defs = collections.defaultdict(list)
